@@ -66,6 +66,7 @@ def _pred_structure(rep, fi, table):
     SN = [nm for nm, ds in local_defs(fi.node).items() for d_ in ds if d_.kind == "assign" and pmatch(sn_pat, d_.value) is not None]
     SN = SN[0] if len(SN) == 1 else None
     stages = []
+    folded_checked = []
     for w in ws:
         # R5
         for role, cmp_ in w.roles_tested:
@@ -78,6 +79,9 @@ def _pred_structure(rep, fi, table):
         # membership + flag
         flags = [n for n in walk_local(w.loop) if isinstance(n, ast.Assign) and isinstance(n.value, ast.Constant) and n.value.value is True]
         if len(flags) != 1:
+            if not folded_checked:
+                folded_checked.append(True)
+                _fold_check(rep, fi, ws, fi.params[0], rnode, table)
             rep.ob("O20.2", "R13", fi, None, w.loop.iter, "walk does not set exactly one flag", node=w.loop)
             continue
         fl = flags[0]
@@ -126,12 +130,19 @@ def _delegated(rep, fi, lp, rnode, table):
         rep.touch(h)
         hnode = h.params[1]
         hws = [w for w in W.walks(h, graph_names=(h.params[0],)) if w.node == hnode]
+        _fold_check(rep, h, hws, h.params[0], hnode, table)
+    rep.ob("O20.2", "R13", fi, None, f"{fi.qual} delegates to {[h.qual for h in helpers]}", "consume/produce structure of the predicate is not the recognised walk-and-flag form", node=lp)
+
+
+def _fold_check(rep, h, hws, gname, hnode, table=None):
+    """consumption and production of a reaction must be kept apart: one signed coefficient per species loses a species that is on both sides"""
+    if True:
         pm = parent_map(h.node)
         signs = {}
         for w in hws:
             for role, cmp_ in w.roles_tested:
-                want = table.get(role, {}).get("dir")
-                rep.ob("O20.1", "R5", h, (want == w.direction) if want else None, f"{h.params[0]}.{w.method}({hnode}) tests role == '{role}'",
+                want = (table or {}).get(role, {}).get("dir")
+                rep.ob("O20.1", "R5", h, (want == w.direction) if want else None, f"{gname}.{w.method}({hnode}) tests role == '{role}'",
                        f"arcs with role '{role}' are {want}-arcs of a reaction node; {w.method} enumerates {w.direction}-arcs", node=w.loop)
             for n in walk_local(w.loop):
                 tgt = val = op = None
@@ -149,7 +160,6 @@ def _delegated(rep, fi, lp, rnode, table):
             rep.ob("O20.2", "R13", h, not folded, f"`{tgt}` receives {sorted(ss)}",
                    "consumption and production of a reaction are kept apart: folding reactant and product arcs into ONE signed coefficient per species makes a "
                    "species that occurs on both sides (a catalyst) count as neither consumed nor produced", node=h.node)
-    rep.ob("O20.2", "R13", fi, None, f"{fi.qual} delegates to {[h.qual for h in helpers]}", "consume/produce structure of the predicate is not the recognised walk-and-flag form", node=lp)
 
 
 def preds(rep, table):
